@@ -114,6 +114,18 @@ def main():
                             setattr(obj, f.name, nv)
             except Exception:  # pylint: disable=broad-except
                 pass
+            try:
+                # ... and every IP network inside has been looked at (cached properties filled), as an analyser would
+                import ipaddress
+                from .variants import nested_parsables
+                for part in [obj] + nested_parsables(obj):
+                    if attr.has(type(part)):
+                        for f in attr.fields(type(part)):
+                            v = getattr(part, f.name, None)
+                            if isinstance(v, (ipaddress.IPv4Network, ipaddress.IPv6Network)):
+                                _ = (v.broadcast_address, v.hostmask, v.num_addresses, v.is_private)
+            except Exception:  # pylint: disable=broad-except
+                pass
             rebuilt.append((cls, obj))
         objs = rebuilt
     recs = {}
